@@ -5,25 +5,33 @@ import LaytheVerif.Model.FrontEnd
 import LaytheVerif.Lemmas.ScannerTotal
 import LaytheVerif.Lemmas.ParserLoop
 import LaytheVerif.Model.Contract
-import LaytheVerif.Lemmas.ContractSep
+import LaytheVerif.Lemmas.ContractOrder
+import LaytheVerif.Model.LoopDepth
+import LaytheVerif.Lemmas.LoopDepth
 /-!
 # C15 — the front end is total: any text yields a program or diagnostics, never a crash
 
 What is proved here (models: `Model/Scanner.lean`, `Model/FrontEnd.lean`; generated tables: `Gen/Tokens.lean`,
-`Gen/Limits.lean`):
+`Gen/FrontLimits.lean`):
 
 * `C15_scanner_total`            scanner: terminates on every input, exactly one EOF (last), spans inside the input on
                                  character boundaries, non-empty, disjoint and increasing; `C15_unterminated_*`
 * `C15_sync_progress`, `C15_parse_terminates`   each iteration of the declaration loop, error recovery included, consumes
                                  a token; parsing terminates for every grammar oracle
 * `C15_parser_shape_gen` [G]     the facts of parser.rs the loop model relies on, over the regenerated table
-* `C15_limits_guarded` [G]       every `as u8` / `as u16` of the compiler is dominated by a guard with a sufficient bound,
-                                 except the listed `knownUnguarded` sites, each of which is shown to be unguarded
+* `C15_loop_depth_balanced`, `C15_break_only_inside_loops`   the parser's `loop_depth` is restored by every call on
+                                 every path (success, failure, error recovery) and never underflows; on a text without
+                                 diagnostics the compiler's `expect("Parser should have caught the loop constraint")` is not
+                                 reached (`Model/LoopDepth.lean`); `C15_loop_depth_gen` [G] ties every mention of `loop_depth` /
+                                 `loop_attributes` and the save/restore shapes to the Rust text
+* `C15_limits_guarded` [G]       every `as u8` / `as u16` of the compiler is dominated by a guard with a sufficient bound
+                                 (or saturates), except the listed `knownUnguarded` site, which is shown to be unguarded;
+                                 `C15_label_limit_gen` [G]: too many labels in one function is a diagnostic
 * `C15_resolve_then_compile_total_events`       resolver clean ⇒ no lookup `panic!`/`expect` in the compiler, over all
                                  scoping-event sequences
-* `C15_resolve_then_compile_total_partial`      the same at AST level in the two real traversal orders, for every program in
-                                 which no `for` iterable reads its loop variable and no `catch` class is its variable;
-                                 `C15_witness_*`: outside that envelope the real code panics (defect D151)
+* `C15_resolve_then_compile_total_ast`          the same at AST level in the two real traversal orders, for EVERY program of
+                                 the scoping skeleton (no envelope); `C15_scope_order_gen` [G] ties the order of the
+                                 scoping actions of `for_` / `try_` / `catch` in resolver.rs and compiler/mod.rs to the model
 
 `C15_full` (below) is the full statement; it is not proved: the parser's grammar (~2 300 lines) and the compiler's code
 generation are sampled by the malformed-input stream of `vlib/props/c15.py`, not modelled.
@@ -146,17 +154,82 @@ example : (parse ⟨fun _ => 0, fun _ => true⟩ [.RightParen, .Semicolon, .Righ
 example : (parse ⟨fun _ => 0, fun _ => true⟩ [.RightParen, .Semicolon, .Error, .Let, .Eof]).map (·.2) = some false := by decide
 end LoopExamples
 
+/-! ## `loop_depth` (`Model/LoopDepth.lean`, `Lemmas/LoopDepth.lean`) -/
+
+open LaytheVerif.LoopDepth in
+/-- **C15_loop_depth_balanced.**  Every parser call — whatever it contains, whether it succeeds or fails, whatever
+`synchronize` recovered inside — returns with the `loop_depth` it was entered with, and `loop_depth -= 1` is never
+executed at 0 (the debug panic "attempt to subtract with overflow" of `loop_`, repaired defect D21, is unreachable). -/
+theorem C15_loop_depth_balanced (c : Call) (s : PS) :
+    (c.run s).1.depth = s.depth ∧ (c.run s).1.underflow = s.underflow := Call.run_balanced c s
+
+open LaytheVerif.LoopDepth in
+/-- … in particular a whole parse (sequence of declarations from the initial state) never underflows and ends at depth 0 -/
+theorem C15_loop_depth_never_underflows (prog : Calls) :
+    (prog.run {}).1.underflow = false ∧ (prog.run {}).1.depth = 0 :=
+  ⟨(Calls.run_balanced prog {}).2, (Calls.run_balanced prog {}).1⟩
+
+open LaytheVerif.LoopDepth in
+/-- **C15_break_only_inside_loops.**  If a text parses without a diagnostic then every `break`/`continue` the compiler
+visits sits in the body of a loop of the same function/lambda: `loop_attributes` is `Some`, the
+`expect("Parser should have caught the loop constraint")` of `Compiler::break_`/`continue_` (repaired defect D152) is not
+reached.  `gram` is the grammar fact that `break`/`continue` are statements and expressions contain statements only
+inside bodies of function literals. -/
+theorem C15_break_only_inside_loops (prog : Calls) (hg : prog.gram false = true)
+    (hok : (prog.run {}).2 = true) (hd : (prog.run {}).1.diags = 0) : prog.comp false = true :=
+  Calls.comp_ok prog {} false false hg (fun _ => rfl) hok hd
+
+/-- [G] parser.rs / compiler/mod.rs: every mention of `loop_depth` and of `loop_attributes` is one of the modelled
+actions, `loop_` is `inc; cb; dec`, `function` and `lambda` zero the depth after their signature and restore it on every
+path (the body result is bound, no `?`/`return` in between), `break_`/`continue_` check first, only `for_` and `while_`
+use `loop_`, `decl()` (`.or_else(synchronize)`, which pushes the diagnostic) is the only place where a failed parse
+continues, a fresh compiler starts outside of any loop, the two `expect`s are the only consumers. -/
+theorem C15_loop_depth_gen :
+    Gen.loopDepthSites = [("-", "field"), ("new", "init0"), ("loop_", "inc"), ("loop_", "dec"), ("continue_", "check0"),
+      ("break_", "check0"), ("lambda", "save0"), ("lambda", "restore"), ("function", "save0"), ("function", "restore")] ∧
+    (∀ r ∈ Gen.loopDepthShape, r.2 = true) ∧ Gen.loopDepthShape.length = 7 ∧
+    Gen.loopUsers = ["for_", "while_"] ∧ Gen.errorCatchers = ["decl"] ∧
+    Gen.loopAttrSites = [("-", "field"), ("new", "none"), ("child", "none"), ("loop_scope", "replace"), ("loop_scope", "restore"),
+      ("continue_", "expect"), ("break_", "expect")] := by decide
+
+section LoopDepthExamples
+open LaytheVerif.LoopDepth
+/-- non-vacuity: `while c { break; let f = || { for x in (|| 1) { continue; } }; fn g( … }` without the failing `fn`:
+a loop with a `break`, a lambda with its own loop and `continue` — parses clean, compiles -/
+example :
+    let t := Calls.ofList [.decl (Calls.ofList [.loop .nil (Calls.ofList [.decl (Calls.ofList [.brk]) true,
+      .decl (Calls.ofList [.node (Calls.ofList [.fn .nil (Calls.ofList [.decl (Calls.ofList [
+        .loop (Calls.ofList [.fn .nil .nil]) (Calls.ofList [.decl (Calls.ofList [.brk]) true])]) true])])]) true])]) true]
+    t.gram false = true ∧ t.run {} = ({}, true) ∧ t.comp false = true := by decide
+
+/-- **regression (repaired defect D21, repo 23aed49)** `while c { fn f( <syntax error> … }`: the old `function` zeroed the
+depth before the signature and restored it only on success: after recovery the enclosing `loop_` decrements at 0; the
+present code reports one diagnostic and ends balanced -/
+theorem C15_regress_function_failure_restores_depth :
+    let t := Calls.ofList [.decl (Calls.ofList [.loop .nil (Calls.ofList [.decl (Calls.ofList [.fn (Calls.ofList [.fail]) .nil]) true])]) true]
+    (t.runOld false {}).1.underflow = true ∧ t.run {} = ({ diags := 1 }, true) := by decide
+
+/-- **regression (repaired defect D152, repo a54a572)** `while c { (|| { break; }); }`: the old `lambda` kept the
+enclosing depth: the text parsed clean and the lambda's compiler reached the `expect`; the present parser rejects it -/
+theorem C15_regress_lambda_resets_depth :
+    let t := Calls.ofList [.decl (Calls.ofList [.loop .nil (Calls.ofList [.decl (Calls.ofList [.node (Calls.ofList [
+      .fn .nil (Calls.ofList [.decl (Calls.ofList [.brk]) true])])]) true])]) true]
+    t.gram false = true ∧ t.runOld true {} = ({}, true) ∧ t.comp false = false ∧ t.run {} = ({ diags := 1 }, true) := by decide
+end LoopDepthExamples
+
 /-! ## Narrowing sites -/
 
 /-- the largest operand value that can reach the narrowing without a diagnostic having been reported / outside the
-guarded branch; `none` = no guard -/
+guarded branch; `none` = no guard.  A guard `if q + g CMP bound { error }` lets through `q ≤ bound - g` (for `==`/`>=` the
+counter is compared at every increment, for `>` the check dominates the narrowing); the operand is `q + addend`. -/
 def admittedMax (s : NarrowSite) : Option Nat :=
   match s.guard, s.cmp with
-  | .error, .eq => some (s.bound + s.addend)      -- counter compared at every increment: it never exceeds the bound silently
-  | .error, .ge => some (s.bound + s.addend)
-  | .error, .gt => some (s.bound + s.addend)
+  | .error, .eq => some (s.bound - s.guardAddend + s.addend)
+  | .error, .ge => some (s.bound - s.guardAddend + s.addend)
+  | .error, .gt => some (s.bound - s.guardAddend + s.addend)
   | .branch, .le => some (s.bound + s.addend)
   | .branch, .lt => some (s.bound - 1 + s.addend)
+  | .clamp, .le => some s.bound                     -- the operand is `(…).min(bound)`
   | _, _ => none
 
 def siteGuarded (s : NarrowSite) : Bool :=
@@ -164,15 +237,16 @@ def siteGuarded (s : NarrowSite) : Bool :=
   | some m => m ≤ s.targetMax
   | none => false
 
-/-- Narrowing sites that are NOT protected.  `line_number`: `line as u16 + 1` in `emit_byte` — reachable (65 536 lines),
-defect D153.  `interpolate_count`: guard bound 65535 but the operand is `segments + 2` — reachable (65 534 segments
-compile to `Interpolate 0`), defect D155.  `handler_slots`: `slots as u16` in `apply_stack_effects` (marked TODO in the
-source) — not reachable: `try` is a statement, the depth there is the number of locals in scope (≤ 256, see
-`local_slot`) plus loop temporaries. -/
-def knownUnguarded : List String := ["line_number", "interpolate_count", "handler_slots"]
+/-- Narrowing sites that are NOT protected by the source text.  `handler_slots`: `(slots + params) as u16` in
+`apply_stack_effects` (marked TODO in the source) — not reachable: `try` is a statement, the depth there is the number
+of locals in scope (≤ 256, see `local_slot`) plus parameters (≤ 255, see `arity`) plus loop temporaries.
+(`line_number` — `line as u16 + 1`, defect D153 — and `interpolate_count` — guard bound 65535 for an operand
+`segments + 2`, defect D155 — were listed here until repo commits 3eaeafb and f23bea6.) -/
+def knownUnguarded : List String := ["handler_slots"]
 
 /-- **C15_limits_guarded** [G]: over the regenerated table, every narrowing site is dominated by a guard whose bound
-(plus the constant added before narrowing) fits the target type — or is one of the listed unguarded sites. -/
+(corrected by the constants added on either side) fits the target type, or saturates at a value that fits — or is the
+listed unguarded site. -/
 theorem C15_limits_guarded :
     ∀ s ∈ Gen.narrowSites, siteGuarded s = true ∨ s.id ∈ knownUnguarded := by decide
 
@@ -180,10 +254,22 @@ theorem C15_limits_guarded :
 theorem C15_known_unguarded_are_unguarded :
     ∀ i ∈ knownUnguarded, ∃ s ∈ Gen.narrowSites, s.id = i ∧ siteGuarded s = false := by decide
 
+/-- [G] the two repaired sites, as they are now: the line number saturates at 65535 (`(line + 1).min(u16::MAX)`), and the
+interpolation guard counts the start and the end of the string (`segments.len() + 2 > u16::MAX`), so the operand
+`segments + 2` of `Interpolate` is at most 65535 -/
+theorem C15_repaired_sites_gen :
+    (∃ s ∈ Gen.narrowSites, s.id = "line_number" ∧ s.guard = .clamp ∧ admittedMax s = some 65535) ∧
+    (∃ s ∈ Gen.narrowSites, s.id = "interpolate_count" ∧ s.guard = .error ∧ s.guardAddend = s.addend ∧
+      admittedMax s = some 65535) := by decide
+
+/-- [G] `peephole_compile`: more than 65535 labels in one function is reported as a diagnostic (`return Err(…)`), not a
+host panic (`todo!()` until repo commit d9eb4e4, defect D154) -/
+theorem C15_label_limit_gen : Gen.labelLimit = (65535, "diagnostic") := by decide
+
 /-- [G] the numeric limits of the front end (a changed bound re-opens this) -/
 theorem C15_limits_table_gen :
     Gen.limits = [("arguments", 255), ("captures", 255), ("constantIndex", 255), ("constants", 65535), ("fields", 65535),
-      ("interpolationSegments", 65535), ("jumpDistance", 65535), ("listItems", 65535), ("locals", 255), ("mapEntries", 65535),
+      ("interpolationSegments", 65533), ("jumpDistance", 65535), ("listItems", 65535), ("locals", 255), ("mapEntries", 65535),
       ("moduleSymbols", 65535), ("parameters", 255), ("tupleItems", 65535)] ∧ Gen.narrowSites.length = 20 := by decide
 
 /-- [G] resolver.rs: in every function body each `declare_variable(x)` is followed by `define_variable(x)`: no symbol
@@ -203,24 +289,61 @@ theorem C15_resolve_then_compile_total_events (isGlobal : Name → Bool) (es : L
     (compileAfter isGlobal es es).ok = true := resolve_then_compile_events isGlobal es herr hh
 
 open LaytheVerif.Contract in
-/-- AST level, in the two REAL traversal orders (the compiler visits a `for` iterable before declaring the loop
-variable and a `catch` class before the catch variable; the resolver the other way round): inside the decidable
-envelope `sep` — no `for` iterable reads its own loop variable, no `catch` class is its own variable — a clean resolver
-run implies a panic-free compiler run.  **Partial** with respect to the real front end: the scoping skeleton `Item` has
+/-- **C15_resolve_then_compile_total_ast.**  AST level, in the two REAL traversal orders (`Item.revs` = resolver.rs,
+`Item.cevs` = compiler/mod.rs), for EVERY program of the scoping skeleton: a clean resolver run implies a panic-free
+compiler run.  No envelope: since resolver.rs visits the iterable of a `for` before declaring the loop variable and
+the class of a `catch` before declaring the catch variable (repo commits 22c8429, b3a40ba) the two traversals differ
+only in the position of `define` events.  **Partial** only with respect to the real front end: the skeleton `Item` has
 `let`, `fn`, lambdas, blocks, `for`, `catch`; classes (`self`/`super` scopes), imports/exports and the REPL fallbacks are
-not in it, and that the real passes perform exactly these events is checked by the streams, not proved.  Outside the
-envelope the contract is FALSE for the real code (witnesses below, defect D151). -/
-theorem C15_resolve_then_compile_total_partial (isGlobal : Name → Bool) (prog : Items) (hsep : sep prog = true)
+not in it, and that the real passes perform exactly these events is checked by the contract stream (and, for the order
+of the actions of `for_`/`try_`/`catch`, by `C15_scope_order_gen`), not proved. -/
+theorem C15_resolve_then_compile_total_ast (isGlobal : Name → Bool) (prog : Items)
     (herr : (resolve isGlobal (resolverEvents prog)).errors = 0)
     (hh : (resolve isGlobal (resolverEvents prog)).unhoisted = 0) :
     (compileAfter isGlobal (resolverEvents prog) (compilerEvents prog)).ok = true :=
-  resolve_then_compile_ast_sep isGlobal prog hsep herr hh
+  resolve_then_compile_ast isGlobal prog herr hh
 
 open LaytheVerif.Contract in
-/-- inside the envelope the compiler cannot tell the two traversal orders apart -/
-theorem C15_traversal_orders_agree (mods : List Name) (cap : Id → Bool) (prog : Items) (hsep : sep prog = true) :
+/-- the compiler cannot tell the two traversal orders apart: same final state for every module table and oracle -/
+theorem C15_traversal_orders_agree (mods : List Name) (cap : Id → Bool) (prog : Items) :
     compile mods cap (resolverEvents prog) = compile mods cap (compilerEvents prog) :=
-  compile_orders_agree mods cap prog hsep
+  compile_orders_agree mods cap prog
+
+open LaytheVerif.Contract in
+/-- the two traversals perform the same declarations, scope brackets and lookups in the same order -/
+theorem C15_traversals_same_events (prog : Items) :
+    eraseDefs (Items.revs prog) = eraseDefs (Items.cevs prog) := Items.eraseDefs_revs prog
+
+section ScopeOrder
+open LaytheVerif.Contract
+/-- the label of a scoping event of the probes below, in the vocabulary of `Gen.scopeOrder` (`endScope` has no
+counterpart in the text: scopes are closures) -/
+private def label : Ev → List String
+  | .beginScope => ["scope"]
+  | .use 20 => ["iter"]
+  | .use 21 => ["class"]
+  | .use _ => ["body"]
+  | .declare n _ => if n = nIter then ["declare $iter"] else if n = 10 then ["declare item"] else ["declare var"]
+  | .define n => if n = nIter then ["define $iter"] else if n = 10 then ["define item"] else ["define var"]
+  | _ => []
+
+/-- `for v10 in v20 { v30 }` and `catch v11: v21 { v30 }` -/
+private def forProbe : Item := .forD 10 1 (Items.ofList [.use 20]) (Items.ofList [.use 30])
+private def catchProbe : Item := .catchD 11 1 21 (Items.ofList [.use 30])
+
+/-- **C15_scope_order_gen** [G]: the order in which `Resolver::for_`, `Resolver::try_` + `catch`, `Compiler::for_`,
+`Compiler::try_` + `catch` perform their scoping actions — read off the Rust text by the translator — is the order of
+the events of the model's traversals `Item.revs` / `Item.cevs`.  (The resolver opens the catch scope in `try_`, the
+compiler in `catch`.)  Moving a `declare_variable` in front of the visit of the iterable / the lookup of the class in
+either pass re-opens this. -/
+theorem C15_scope_order_gen :
+    Gen.scopeOrder.lookup "resolver.for_" = some ((Item.revs forProbe).flatMap label) ∧
+    Gen.scopeOrder.lookup "compiler.for_" = some ((Item.cevs forProbe).flatMap label) ∧
+    Gen.scopeOrder.lookup "resolver.try_" = some ["scope", "body", "scope", "catch"] ∧
+    (Gen.scopeOrder.lookup "resolver.catch").map ("scope" :: ·) = some ((Item.revs catchProbe).flatMap label) ∧
+    Gen.scopeOrder.lookup "compiler.try_" = some ["scope", "body", "catch"] ∧
+    Gen.scopeOrder.lookup "compiler.catch" = some ((Item.cevs catchProbe).flatMap label) := by decide
+end ScopeOrder
 
 section ContractExamples
 open LaytheVerif.Contract
@@ -233,41 +356,39 @@ example : (resolve noGlobals (resolverEvents (Items.ofList [.block (Items.ofList
 example : (resolve noGlobals (resolverEvents (Items.ofList [.block (Items.ofList [.letD 11 1 .nil, .letD 11 2 .nil])]))).errors = 1 := by
   decide
 
-/-- non-vacuity of the theorem's hypotheses: a closure capturing an outer local, a `for` over a variable and over a
-capturing lambda with a nested `for`, a `catch` with a global class — inside the envelope, resolver clean, a capture
-recorded, compiler ok -/
-theorem C15_example_inside_envelope :
+/-- non-vacuity of the theorem's hypotheses: a closure capturing an outer local, a `for` whose iterable reads an outer
+variable named like the loop variable and contains a capturing lambda with a nested `for`, a `catch` with a global
+class and one whose variable is named like its class — resolver clean, a capture recorded, compiler ok -/
+theorem C15_example_contract :
     let prog := Items.ofList [.funD 20 1 [(12, 2)] (Items.ofList [
       .letD 10 3 .nil,
+      .letD 11 9 .nil,
       .letD 13 4 (Items.ofList [.lam [(15, 5)] (Items.ofList [.use 10, .use 15])]),
-      .forD 11 6 (Items.ofList [.use 10, .lam [] (Items.ofList [.use 12, .forD 11 7 (Items.ofList [.use 13]) .nil])])
+      .forD 11 6 (Items.ofList [.use 11, .lam [] (Items.ofList [.use 12, .use 11, .forD 11 7 (Items.ofList [.use 13]) .nil])])
         (Items.ofList [.use 11, .use 10]),
-      .block (Items.ofList [.catchD 14 8 50 (Items.ofList [.use 14, .use 50])])])]
+      .block (Items.ofList [.catchD 14 8 50 (Items.ofList [.use 14, .use 50]), .catchD 50 10 50 (Items.ofList [.use 50])])])]
     let g : Name → Bool := fun n => n == 50
-    sep prog = true ∧
     (resolve g (resolverEvents prog)).errors = 0 ∧ (resolve g (resolverEvents prog)).unhoisted = 0 ∧
     (resolve g (resolverEvents prog)).captured ≠ [] ∧
-    (compileAfter g (resolverEvents prog) (compilerEvents prog)).ok = true := example_inside_envelope
+    (compileAfter g (resolverEvents prog) (compilerEvents prog)).ok = true := example_contract
 
-/-- **witness (defect D151)** `for x in x {}`: resolver clean, compiler reaches `panic!("Symbol x not found …")` -/
-theorem C15_witness_for_iter_sees_item :
-    let prog := Items.ofList [.forD 10 1 (Items.ofList [.use 10]) .nil]
-    (resolve noGlobals (resolverEvents prog)).errors = 0 ∧ (resolve noGlobals (resolverEvents prog)).unhoisted = 0 ∧
-    (compileAfter noGlobals (resolverEvents prog) (compilerEvents prog)).ok = false ∧ sep prog = false := witness_for_self
+/-- **regression (repaired defect D151)** `for x in x {}`: the iterable is resolved before `x` exists: a diagnostic
+(the old order gave a clean resolver run and a compiler panic "Symbol x not found") -/
+theorem C15_regress_for_iter_does_not_see_item :
+    (resolve noGlobals (resolverEvents (Items.ofList [.forD 10 1 (Items.ofList [.use 10]) .nil]))).errors = 1 := regress_for_self
 
-/-- **witness (defect D151)** `catch e: e {}` -/
-theorem C15_witness_catch_class_is_catch_var :
-    let prog := Items.ofList [.catchD 10 1 10 .nil]
-    (resolve noGlobals (resolverEvents prog)).errors = 0 ∧ (resolve noGlobals (resolverEvents prog)).unhoisted = 0 ∧
-    (compileAfter noGlobals (resolverEvents prog) (compilerEvents prog)).ok = false ∧ sep prog = false := witness_catch_self
+/-- **regression (D151)** `catch e: e {}`: a diagnostic -/
+theorem C15_regress_catch_class_is_not_catch_var :
+    (resolve noGlobals (resolverEvents (Items.ofList [.catchD 10 1 10 .nil]))).errors = 1 := regress_catch_self
 
-/-- **witness (defect D151)** `fn f() { let x; fn g() { for x in x {} } }`: the compiler finds the enclosing function's
-never-captured `x`: `panic!("Unexpected symbol x … LocalInitialized")` -/
-theorem C15_witness_for_iter_finds_uncaptured_outer_local :
+/-- **regression (D151 / D31)** `fn f() { let x; fn g() { for x in x {} } }`: the iterable's `x` is the enclosing
+function's local, now marked captured; resolver clean, compiler ok -/
+theorem C15_regress_for_iter_captures_outer_local :
     let prog := Items.ofList [.funD 20 1 [] (Items.ofList [.letD 10 2 .nil,
       .funD 21 3 [] (Items.ofList [.forD 10 4 (Items.ofList [.use 10]) .nil])])]
     (resolve noGlobals (resolverEvents prog)).errors = 0 ∧ (resolve noGlobals (resolverEvents prog)).unhoisted = 0 ∧
-    (compileAfter noGlobals (resolverEvents prog) (compilerEvents prog)).ok = false ∧ sep prog = false := witness_for_shadow
+    (resolve noGlobals (resolverEvents prog)).captured = [2] ∧
+    (compileAfter noGlobals (resolverEvents prog) (compilerEvents prog)).ok = true := regress_for_shadow
 end ContractExamples
 
 /-! ## The full statement (not proved) -/
